@@ -11,9 +11,14 @@ abbrev μ (mono : Bool) : Elem → Rat := fun e => (elemMass mono e).getD 0
 def resMass (env : Env) (mono : Bool) (v : ModVal) : Except Err Rat :=
   if mono then (env.res v).mono else (env.res v).avg
 
-/-- the resolution of one modification value is self-consistent in the given mode: a plain shift whose mass is the
-shift, or a composition whose mass (in that mode) is the tabulated mass -/
+/-- the resolution of one modification value is usable by both calculators: a plain shift whose mass is the shift, or a
+composition together with a tabulated mass in the mode (their difference is the row's `gap`, see `gapOf`) -/
 def Consistent (env : Env) (mono : Bool) (v : ModVal) : Prop :=
+  (∃ d, (env.res v).delta = .ok (some d) ∧ resMass env mono v = .ok d) ∨
+  (∃ c x, (env.res v).delta = .ok none ∧ (env.res v).comp = .ok c ∧ resMass env mono v = .ok x)
+
+/-- … and exactly self-consistent: the tabulated mass IS the mass of the composition in the mode -/
+def ExactlyConsistent (env : Env) (mono : Bool) (v : ModVal) : Prop :=
   (∃ d, (env.res v).delta = .ok (some d) ∧ resMass env mono v = .ok d) ∨
   (∃ c, (env.res v).delta = .ok none ∧ (env.res v).comp = .ok c ∧ resMass env mono v = .ok (chemMassL (μ mono) c))
 
@@ -38,6 +43,16 @@ def deltaSum (env : Env) (l : List Mod) : Rat := sumR (l.map (deltaPart env))
 def keptOf (env : Env) (l : List Mod) : List Mod := l.filter (isKept env)
 def compSum (env : Env) (mono : Bool) (l : List Mod) : Rat := sumR (l.map fun m => chemMassL (μ mono) (compOf env m))
 
+/-- the row gap of one written modification: (tabulated mass − mass of its composition) × multiplier; 0 for plain shifts -/
+def gapOf (env : Env) (mono : Bool) (m : Mod) : Rat :=
+  if isKept env m then modValue env mono m - chemMassL (μ mono) (compOf env m) else 0
+
+def gapSum (env : Env) (mono : Bool) (l : List Mod) : Rat := sumR (l.map (gapOf env mono))
+
+theorem gapSum_append (env : Env) (mono : Bool) (a b : List Mod) :
+    gapSum env mono (a ++ b) = gapSum env mono a + gapSum env mono b := by
+  simp [gapSum, sumR_append]
+
 theorem popList_ok (env : Env) (mono : Bool) (l : List Mod) (h : AllConsistent env mono l) :
     popList env l = .ok (deltaSum env l, keptOf env l) := by
   unfold popList deltaSum keptOf
@@ -47,7 +62,7 @@ theorem popList_ok (env : Env) (mono : Bool) (l : List Mod) (h : AllConsistent e
     have hm := h m List.mem_cons_self
     have hl : AllConsistent env mono l := fun x hx => h x (List.mem_cons_of_mem _ hx)
     rw [List.foldrM_cons, ih hl, bind_ok]
-    rcases hm with ⟨d, hd, _⟩ | ⟨c, hd, _, _⟩
+    rcases hm with ⟨d, hd, _⟩ | ⟨c, x, hd, _, _⟩
     · rw [hd, bind_ok]
       simp only [List.map_cons, sumR_cons, List.filter_cons, deltaPart, isKept, hd]
       show Except.ok _ = Except.ok _
@@ -60,26 +75,54 @@ theorem popList_ok (env : Env) (mono : Bool) (l : List Mod) (h : AllConsistent e
       ring
 
 theorem modValue_split (env : Env) (mono : Bool) (m : Mod) (h : Consistent env mono m.val) :
-    modValue env mono m = deltaPart env m + (if isKept env m then chemMassL (μ mono) (compOf env m) else 0) := by
-  unfold modValue deltaPart isKept compOf
-  have hr : (if mono then (env.res m.val).mono else (env.res m.val).avg) = resMass env mono m.val := rfl
-  rw [hr]
-  rcases h with ⟨d, hd, hm⟩ | ⟨c, hd, hc, hm⟩
-  · rw [hd, hm]; simp
-  · rw [hd, hc, hm]; simp [chemMassL_scale]; ring
+    modValue env mono m = deltaPart env m + (if isKept env m then chemMassL (μ mono) (compOf env m) else 0)
+      + gapOf env mono m := by
+  unfold gapOf
+  rcases h with ⟨d, hd, hm⟩ | ⟨c, x, hd, hc, hm⟩
+  · have hk : isKept env m = false := by unfold isKept; rw [hd]
+    have hr : (if mono then (env.res m.val).mono else (env.res m.val).avg) = resMass env mono m.val := rfl
+    simp only [hk, Bool.false_eq_true, if_false]
+    unfold modValue deltaPart
+    rw [hr, hd, hm]; simp
+  · have hk : isKept env m = true := by unfold isKept; rw [hd]
+    have hdp : deltaPart env m = 0 := by unfold deltaPart; rw [hd]
+    simp only [hk, if_true, hdp]
+    ring
 
 theorem modsValue_split (env : Env) (mono : Bool) (l : List Mod) (h : AllConsistent env mono l) :
-    modsValue env mono l = deltaSum env l + compSum env mono (keptOf env l) := by
-  unfold modsValue deltaSum compSum keptOf
+    modsValue env mono l = deltaSum env l + compSum env mono (keptOf env l) + gapSum env mono l := by
+  unfold modsValue deltaSum compSum keptOf gapSum
   induction l with
   | nil => simp [sumR_nil]
   | cons m l ih =>
     have hm := h m List.mem_cons_self
     have hl : AllConsistent env mono l := fun x hx => h x (List.mem_cons_of_mem _ hx)
-    rw [List.map_cons, sumR_cons, List.map_cons, sumR_cons, ih hl, modValue_split env mono m hm, List.filter_cons]
+    rw [List.map_cons, sumR_cons, List.map_cons, sumR_cons, List.map_cons, sumR_cons, ih hl,
+      modValue_split env mono m hm, List.filter_cons]
     by_cases hk : isKept env m = true
     · simp only [hk, if_true, List.map_cons, sumR_cons]; ring
     · simp only [hk, Bool.false_eq_true, if_false]; ring
+
+/-- with exactly self-consistent rows the gap vanishes -/
+theorem gapSum_zero (env : Env) (mono : Bool) (l : List Mod) (h : ∀ m ∈ l, ExactlyConsistent env mono m.val) :
+    gapSum env mono l = 0 := by
+  unfold gapSum
+  induction l with
+  | nil => rfl
+  | cons m l ih =>
+    rw [List.map_cons, sumR_cons, ih (fun x hx => h x (List.mem_cons_of_mem _ hx))]
+    have : gapOf env mono m = 0 := by
+      unfold gapOf
+      rcases h m List.mem_cons_self with ⟨d, hd, _⟩ | ⟨c, hd, hc, hm⟩
+      · have hk : isKept env m = false := by unfold isKept; rw [hd]
+        simp [hk]
+      · have hr : (if mono then (env.res m.val).mono else (env.res m.val).avg) = resMass env mono m.val := rfl
+        have hk : isKept env m = true := by unfold isKept; rw [hd]
+        simp only [hk, if_true]
+        unfold modValue compOf
+        rw [hr, hm, hc, chemMassL_scale]
+        ring
+    rw [this]; ring
 
 theorem kept_has_comp (env : Env) (mono : Bool) (l : List Mod) (h : AllConsistent env mono l) :
     ∀ m ∈ keptOf env l, ∃ c, (env.res m.val).comp = .ok c := by
@@ -87,7 +130,7 @@ theorem kept_has_comp (env : Env) (mono : Bool) (l : List Mod) (h : AllConsisten
   unfold keptOf at hm
   rw [List.mem_filter] at hm
   obtain ⟨hml, hk⟩ := hm
-  rcases h m hml with ⟨d, hd, _⟩ | ⟨c, _, hc, _⟩
+  rcases h m hml with ⟨d, hd, _⟩ | ⟨c, x, _, hc, _⟩
   · unfold isKept at hk; rw [hd] at hk; simp at hk
   · exact ⟨c, hc⟩
 
@@ -381,7 +424,7 @@ theorem placed_split (env : Env) (mono : Bool) (a : Annotation) (ion : Key) (hl 
       (compSum env mono (keptOf env (a.unknown.getD [])) + compSum env mono (keptOf env (ivMods a.intervals)) +
         (if ion = ionP then compSum env mono (keptOf env (a.labile.getD [])) else 0) +
         compSum env mono (keptOf env (a.nterm.getD [])) + compSum env mono (keptOf env (a.cterm.getD [])) +
-        compSum env mono (keptOf env (intMods a.internal))) := by
+        compSum env mono (keptOf env (intMods a.internal))) + gapSum env mono (placedMods a ion) := by
   have hsub : AllConsistent env mono (placedMods a ion) := by
     intro m hm
     apply hc
@@ -390,7 +433,9 @@ theorem placed_split (env : Env) (mono : Bool) (a : Annotation) (ion : Key) (hl 
     by_cases hp : ion = ionP
     · simp only [hp, if_true, List.mem_append] at hm ⊢; tauto
     · simp only [hp, if_false, List.nil_append, List.mem_append] at hm ⊢; tauto
-  rw [modsValue_split env mono _ hsub, placedMods_eq]
+  rw [modsValue_split env mono _ hsub]
+  congr 1
+  rw [placedMods_eq]
   unfold deltaAll
   by_cases hp : ion = ionP
   · simp only [hp, if_true, deltaSum_append, keptOf_append, compSum_append]; ring
@@ -398,7 +443,6 @@ theorem placed_split (env : Env) (mono : Bool) (a : Annotation) (ion : Key) (hl 
     simp only [hp, if_false, hlab, Option.getD_none, deltaSum_append, keptOf_append, compSum_append, List.nil_append]
     have : deltaSum env [] = 0 := rfl
     rw [this]; ring
-
 
 /-! ### residues, neutral adjustment, charge carrier -/
 
@@ -520,7 +564,7 @@ theorem consistent_resolves (env : Env) (mono : Bool) (l : List Mod) (h : AllCon
   unfold modResolves
   have hr : (if mono then (env.res m.val).mono else (env.res m.val).avg) = resMass env mono m.val := rfl
   rw [hr]
-  rcases h m hm with ⟨d, _, hv⟩ | ⟨c, _, _, hv⟩ <;> rw [hv]
+  rcases h m hm with ⟨d, _, hv⟩ | ⟨c, x, _, _, hv⟩ <;> rw [hv]
 
 theorem fastMass_lib (env : Env) (a : Annotation) (o : Opts)
     (hstatic : a.static = none) (hl : o.isotopeMods = none) (hl' : a.isotope = none)
@@ -611,7 +655,8 @@ theorem compMassCore_ok (env : Env) (mono : Bool) (b : Annotation) (ion : Key) (
     (hcc : ion = ionP ∨ ion = ionN ∨ (lookup ion Gen.baseAdducts).isSome = true)
     (S : Rat) (hsb : ∃ c, seqBaseComp b ion = .ok c ∧ chemMassL (μ mono) c = S) :
     ∃ c d, compMassCore env b ion isotope useIso = .ok (c, d) ∧
-      chemMassL (μ mono) c + d = S + modsValue env mono (placedMods b ion) + (isotope : Rat) * Gen.neutronMass := by
+      chemMassL (μ mono) c + d + gapSum env mono (placedMods b ion)
+        = S + modsValue env mono (placedMods b ion) + (isotope : Rat) * Gen.neutronMass := by
   obtain ⟨hB, hZ⟩ := noBZ b.seq hres
   obtain ⟨sb, hsb, hsm⟩ := hsb
   -- the annotation after dropping labile mods
@@ -686,7 +731,7 @@ theorem mass_eq_compMass_of_tables (hI : ionTablesOk = true) (env : Env) (a : An
     (hion : o.ion = ionP ∨ o.ion = ionN ∨ (lookup o.ion Gen.ionComp).isSome = true) :
     ∃ c d, compMass env a o.ion o.charge o.isotope none none o.useIsotopeOnMods = .ok (c, d) ∧
       mass env a o = .ok (chemMassL (μ o.mono) c + d + o.loss
-        + kProtons a o * (Gen.protonMass - hplus o.mono)) := by
+        + kProtons a o * (Gen.protonMass - hplus o.mono) + gapSum env o.mono (placedMods a o.ion)) := by
   obtain ⟨adj, hadj⟩ := Option.isSome_iff_exists.mp hadj
   obtain ⟨f1, f2, f3, f4, f5, f6, f7⟩ := override_fields a o.charge
   have hfa : fragmentAdjMass o.mono o.ion = some (constMass o.mono adj) :=
@@ -768,26 +813,32 @@ theorem findAll_length (pat s : List Char) : (findAll pat s).length = countSub p
   · simp [hp]
   · simp only [hp, Bool.false_eq_true, if_false]; exact findAll_go_length pat _ s 0
 
-/-- value of the residue modifications -/
-def intValue (env : Env) (mono : Bool) (d : Option (List (Int × List Mod))) : Rat := modsValue env mono (intMods d)
+/-- Σ f over a list of modifications (`modsValue env mono = sumF (modValue env mono)`, `gapSum env mono = sumF (gapOf env mono)`) -/
+def sumF (f : Mod → Rat) (l : List Mod) : Rat := sumR (l.map f)
 
-theorem intMods_addAt (d : List (Int × List Mod)) (i : Int) (l : List Mod) (env : Env) (mono : Bool) :
-    modsValue env mono ((addAt d i l).flatMap (·.2)) = modsValue env mono (d.flatMap (·.2)) + modsValue env mono l := by
+theorem sumF_append (f : Mod → Rat) (a b : List Mod) : sumF f (a ++ b) = sumF f a + sumF f b := by
+  simp [sumF, sumR_append]
+
+/-- Σ f over the residue modifications -/
+def intValue (f : Mod → Rat) (d : Option (List (Int × List Mod))) : Rat := sumF f (intMods d)
+
+theorem intMods_addAt (d : List (Int × List Mod)) (i : Int) (l : List Mod) (f : Mod → Rat) :
+    sumF f ((addAt d i l).flatMap (·.2)) = sumF f (d.flatMap (·.2)) + sumF f l := by
   induction d with
-  | nil => simp [addAt, modsValue, sumR_nil]
+  | nil => simp [addAt, sumF, sumR_nil]
   | cons p d ih =>
     obtain ⟨k, v⟩ := p
     unfold addAt
     by_cases hk : k = i
-    · simp only [hk, if_true, List.flatMap_cons, modsValue_append]; ring
-    · simp only [hk, if_false, List.flatMap_cons, modsValue_append, ih]; ring
+    · simp only [hk, if_true, List.flatMap_cons, sumF_append]; ring
+    · simp only [hk, if_false, List.flatMap_cons, sumF_append, ih]; ring
 
-theorem intValue_addInternal (env : Env) (mono : Bool) (d : Option (List (Int × List Mod))) (i : Int) (l : List Mod) :
-    intValue env mono (addInternal d i l) = intValue env mono d + modsValue env mono l := by
+theorem intValue_addInternal (f : Mod → Rat) (d : Option (List (Int × List Mod))) (i : Int) (l : List Mod) :
+    intValue f (addInternal d i l) = intValue f d + sumF f l := by
   unfold intValue intMods addInternal
   cases d with
-  | none => simp [modsValue, sumR_nil]
-  | some d => simp only [Option.getD_some]; exact intMods_addAt d i l env mono
+  | none => simp [sumF, sumR_nil]
+  | some d => simp only [Option.getD_some]; exact intMods_addAt d i l f
 
 theorem mem_addAt (d : List (Int × List Mod)) (i : Int) (l : List Mod) (m : Mod)
     (h : m ∈ (addAt d i l).flatMap (·.2)) : m ∈ d.flatMap (·.2) ∨ m ∈ l := by
@@ -817,10 +868,10 @@ def SameButInternal (a b : Annotation) : Prop :=
   a.seq = b.seq ∧ a.isotope = b.isotope ∧ a.static = b.static ∧ a.labile = b.labile ∧ a.unknown = b.unknown ∧
   a.nterm = b.nterm ∧ a.cterm = b.cterm ∧ a.intervals = b.intervals ∧ a.charge = b.charge ∧ a.adducts = b.adducts
 
-theorem condenseRule_props (env : Env) (mono : Bool) (a : Annotation) (p : List Char × List Mod) :
+theorem condenseRule_props (f : Mod → Rat) (a : Annotation) (p : List Char × List Mod) :
     SameButInternal (condenseRule a p) a ∧
-    intValue env mono (condenseRule a p).internal = intValue env mono a.internal +
-      (if p.1 = nTerm || p.1 = cTerm then 0 else modsValue env mono p.2 * ((countSub p.1 a.seq : Nat) : Rat)) ∧
+    intValue f (condenseRule a p).internal = intValue f a.internal +
+      (if p.1 = nTerm || p.1 = cTerm then 0 else sumF f p.2 * ((countSub p.1 a.seq : Nat) : Rat)) ∧
     (∀ m ∈ intMods (condenseRule a p).internal, m ∈ intMods a.internal ∨ m ∈ p.2) := by
   unfold condenseRule
   by_cases hp : (p.1 = nTerm || p.1 = cTerm) = true
@@ -844,27 +895,27 @@ theorem condenseRule_props (env : Env) (mono : Bool) (a : Annotation) (p : List 
 
 def mapMods (map : List (List Char × List Mod)) : List Mod := map.flatMap (·.2)
 
-/-- Σ over the residue-targeted rules: mods × number of matching residues -/
-def rulesValue (env : Env) (mono : Bool) (seq : List Char) (map : List (List Char × List Mod)) : Rat :=
-  sumR (map.map fun p => if p.1 = nTerm || p.1 = cTerm then 0 else modsValue env mono p.2 * ((countSub p.1 seq : Nat) : Rat))
+/-- Σ over the residue-targeted rules: Σ f(mods) × number of matching residues -/
+def rulesSum (f : Mod → Rat) (seq : List Char) (map : List (List Char × List Mod)) : Rat :=
+  sumR (map.map fun p => if p.1 = nTerm || p.1 = cTerm then 0 else sumF f p.2 * ((countSub p.1 seq : Nat) : Rat))
 
-theorem foldl_condenseRule_props (env : Env) (mono : Bool) (map : List (List Char × List Mod)) (a : Annotation) :
+theorem foldl_condenseRule_props (f : Mod → Rat) (map : List (List Char × List Mod)) (a : Annotation) :
     SameButInternal (map.foldl condenseRule a) a ∧
-    intValue env mono (map.foldl condenseRule a).internal = intValue env mono a.internal + rulesValue env mono a.seq map ∧
+    intValue f (map.foldl condenseRule a).internal = intValue f a.internal + rulesSum f a.seq map ∧
     (∀ m ∈ intMods (map.foldl condenseRule a).internal, m ∈ intMods a.internal ∨ m ∈ mapMods map) := by
   induction map generalizing a with
   | nil =>
-    exact ⟨⟨rfl, rfl, rfl, rfl, rfl, rfl, rfl, rfl, rfl, rfl⟩, by simp [rulesValue, sumR_nil], fun m hm => Or.inl hm⟩
+    exact ⟨⟨rfl, rfl, rfl, rfl, rfl, rfl, rfl, rfl, rfl, rfl⟩, by simp [rulesSum, sumR_nil], fun m hm => Or.inl hm⟩
   | cons p map ih =>
     rw [List.foldl_cons]
-    obtain ⟨hs1, hv1, hm1⟩ := condenseRule_props env mono a p
+    obtain ⟨hs1, hv1, hm1⟩ := condenseRule_props f a p
     obtain ⟨hs2, hv2, hm2⟩ := ih (condenseRule a p)
     obtain ⟨q1, q2, q3, q4, q5, q6, q7, q8, q9, q10⟩ := hs1
     obtain ⟨r1, r2, r3, r4, r5, r6, r7, r8, r9, r10⟩ := hs2
     refine ⟨⟨r1.trans q1, r2.trans q2, r3.trans q3, r4.trans q4, r5.trans q5, r6.trans q6, r7.trans q7, r8.trans q8,
       r9.trans q9, r10.trans q10⟩, ?_, ?_⟩
     · rw [hv2, hv1, q1]
-      unfold rulesValue
+      unfold rulesSum
       rw [List.map_cons, sumR_cons]
       ring
     · intro m hm
@@ -879,25 +930,32 @@ theorem foldl_condenseRule_props (env : Env) (mono : Bool) (map : List (List Cha
 theorem getD_appendOpt (o : Option (List Mod)) (l : List Mod) : (appendOpt o l).getD [] = o.getD [] ++ l := by
   cases o <;> rfl
 
+/-- Σ f over the global rules once parsed: terminal rules once, residue rules × number of matching residues -/
+def mapSum (f : Mod → Rat) (seq : List Char) (map : List (List Char × List Mod)) : Rat :=
+  (match map.lookup nTerm with | some l => sumF f l | none => 0) +
+  (match map.lookup cTerm with | some l => sumF f l | none => 0) + rulesSum f seq map
+
 /-- the value of the global rules once parsed -/
 def mapValue (env : Env) (mono : Bool) (seq : List Char) (map : List (List Char × List Mod)) : Rat :=
-  (match map.lookup nTerm with | some l => modsValue env mono l | none => 0) +
-  (match map.lookup cTerm with | some l => modsValue env mono l | none => 0) + rulesValue env mono seq map
+  mapSum (modValue env mono) seq map
+
+/-- the row gaps of the global rules -/
+def mapGap (env : Env) (mono : Bool) (seq : List Char) (map : List (List Char × List Mod)) : Rat :=
+  mapSum (gapOf env mono) seq map
 
 theorem staticValue_eq (env : Env) (mono : Bool) (a : Annotation) (st : List Mod) (map : List (List Char × List Mod))
     (hs : a.static = some st) (hp : env.parseStatic st = .ok map) :
     staticValue env mono a = mapValue env mono a.seq map := by
-  unfold staticValue mapValue rulesValue
+  unfold staticValue mapValue mapSum rulesSum
   rw [hs]
   simp only
   rw [hp]
   rfl
 
-theorem condenseWith_props (env : Env) (mono : Bool) (a : Annotation) (map : List (List Char × List Mod)) (ion : Key) :
+theorem condenseWith_props (f : Mod → Rat) (a : Annotation) (map : List (List Char × List Mod)) (ion : Key) :
     (condenseWith a map).static = none ∧ (condenseWith a map).seq = a.seq ∧ (condenseWith a map).isotope = a.isotope ∧
     (condenseWith a map).charge = a.charge ∧ (condenseWith a map).adducts = a.adducts ∧
-    modsValue env mono (placedMods (condenseWith a map) ion)
-      = modsValue env mono (placedMods a ion) + mapValue env mono a.seq map ∧
+    sumF f (placedMods (condenseWith a map) ion) = sumF f (placedMods a ion) + mapSum f a.seq map ∧
     (∀ m ∈ writtenMods (condenseWith a map), m ∈ writtenMods a ∨ m ∈ mapMods map) := by
   -- the annotation before the residue rules are folded in
   have key : ∀ (a2 : Annotation) (ln lc : List Mod), a2.seq = a.seq → a2.isotope = a.isotope → a2.static = none →
@@ -908,17 +966,17 @@ theorem condenseWith_props (env : Env) (mono : Bool) (a : Annotation) (map : Lis
       (map.foldl condenseRule a2).static = none ∧ (map.foldl condenseRule a2).seq = a.seq ∧
       (map.foldl condenseRule a2).isotope = a.isotope ∧ (map.foldl condenseRule a2).charge = a.charge ∧
       (map.foldl condenseRule a2).adducts = a.adducts ∧
-      modsValue env mono (placedMods (map.foldl condenseRule a2) ion)
-        = modsValue env mono (placedMods a ion) + (modsValue env mono ln + modsValue env mono lc + rulesValue env mono a.seq map) ∧
+      sumF f (placedMods (map.foldl condenseRule a2) ion)
+        = sumF f (placedMods a ion) + (sumF f ln + sumF f lc + rulesSum f a.seq map) ∧
       (∀ m ∈ writtenMods (map.foldl condenseRule a2), m ∈ writtenMods a ∨ m ∈ mapMods map) := by
     intro a2 ln lc e1 e2 e3 e4 e5 e6 e7 e8 e9 en ec hln hlc
-    obtain ⟨⟨s1, s2, s3, s4, s5, s6, s7, s8, s9, s10⟩, hv, hm⟩ := foldl_condenseRule_props env mono map a2
+    obtain ⟨⟨s1, s2, s3, s4, s5, s6, s7, s8, s9, s10⟩, hv, hm⟩ := foldl_condenseRule_props f map a2
     refine ⟨s3.trans e3, s1.trans e1, s2.trans e2, s9.trans e7, s10.trans e8, ?_, ?_⟩
-    · have hint : modsValue env mono (intMods (map.foldl condenseRule a2).internal)
-          = modsValue env mono (intMods a.internal) + rulesValue env mono a.seq map := by
+    · have hint : sumF f (intMods (map.foldl condenseRule a2).internal)
+          = sumF f (intMods a.internal) + rulesSum f a.seq map := by
         have := hv; unfold intValue at this; rw [this, e9, e1]
       rw [placedMods_eq, placedMods_eq, s4, s5, s6, s7, s8, e4, e5, e6, en, ec]
-      simp only [modsValue_append, hint]
+      simp only [sumF_append, hint]
       ring
     · intro m hmm
       unfold writtenMods at hmm ⊢
@@ -937,7 +995,7 @@ theorem condenseWith_props (env : Env) (mono : Bool) (a : Annotation) (map : Lis
       · rcases hm m h with h | h
         · rw [e9] at h; tauto
         · exact Or.inr h
-  unfold condenseWith mapValue
+  unfold condenseWith mapSum
   have lookMem : ∀ key l, map.lookup key = some l → ∀ m ∈ l, m ∈ mapMods map := by
     intro key l hl m hm
     obtain ⟨k', hk⟩ := list_lookup_mem key map l hl
@@ -948,17 +1006,17 @@ theorem condenseWith_props (env : Env) (mono : Bool) (a : Annotation) (map : Lis
     | none =>
       have := key { a with static := none } [] [] rfl rfl rfl rfl rfl rfl rfl rfl rfl (by simp) (by simp)
         (by simp) (by simp)
-      simpa [modsValue, sumR_nil] using this
+      simpa [sumF, sumR_nil] using this
     | some lc =>
       have := key { a with static := none, cterm := appendOpt a.cterm lc } [] lc rfl rfl rfl rfl rfl rfl rfl rfl rfl
         (by simp) (getD_appendOpt _ _) (by simp) (lookMem cTerm lc hC)
-      simpa [modsValue, sumR_nil] using this
+      simpa [sumF, sumR_nil] using this
   | some ln =>
     cases hC : map.lookup cTerm with
     | none =>
       have := key { a with static := none, nterm := appendOpt a.nterm ln } ln [] rfl rfl rfl rfl rfl rfl rfl rfl rfl
         (getD_appendOpt _ _) (by simp) (lookMem nTerm ln hN) (by simp)
-      simpa [modsValue, sumR_nil] using this
+      simpa [sumF, sumR_nil] using this
     | some lc =>
       have := key { a with static := none, nterm := appendOpt a.nterm ln, cterm := appendOpt a.cterm lc } ln lc
         rfl rfl rfl rfl rfl rfl rfl rfl rfl (getD_appendOpt _ _) (getD_appendOpt _ _) (lookMem nTerm ln hN)
@@ -1004,11 +1062,20 @@ theorem mass_eq_compMass_static_of_tables (hI : ionTablesOk = true) (env : Env) 
     (hion : o.ion = ionP ∨ o.ion = ionN ∨ (lookup o.ion Gen.ionComp).isSome = true) :
     ∃ c d, compMass env a o.ion o.charge o.isotope none none o.useIsotopeOnMods = .ok (c, d) ∧
       mass env a o = .ok (chemMassL (μ o.mono) c + d + o.loss
-        + kProtons a o * (Gen.protonMass - hplus o.mono)) := by
+        + kProtons a o * (Gen.protonMass - hplus o.mono)
+        + (gapSum env o.mono (placedMods a o.ion) + mapGap env o.mono a.seq map)) := by
   obtain ⟨adj, hadj⟩ := Option.isSome_iff_exists.mp hadj
   obtain ⟨f1, f2, f3, f4, f5, f6, f7⟩ := override_fields a o.charge
   obtain ⟨g1, g2, g3, g4, g5, g6, g7⟩ :=
-    condenseWith_props env o.mono (overrideArgs a o.charge none none) map o.ion
+    condenseWith_props (modValue env o.mono) (overrideArgs a o.charge none none) map o.ion
+  obtain ⟨_, _, _, _, _, g6g, _⟩ :=
+    condenseWith_props (gapOf env o.mono) (overrideArgs a o.charge none none) map o.ion
+  have g6 : modsValue env o.mono (placedMods (condenseWith (overrideArgs a o.charge none none) map) o.ion)
+      = modsValue env o.mono (placedMods (overrideArgs a o.charge none none) o.ion)
+        + mapValue env o.mono (overrideArgs a o.charge none none).seq map := g6
+  have g6g : gapSum env o.mono (placedMods (condenseWith (overrideArgs a o.charge none none) map) o.ion)
+      = gapSum env o.mono (placedMods (overrideArgs a o.charge none none) o.ion)
+        + mapGap env o.mono (overrideArgs a o.charge none none).seq map := g6g
   have hfa : fragmentAdjMass o.mono o.ion = some (constMass o.mono adj) :=
     congrArg (Option.map (constMass o.mono)) hadj
   have hconsA : AllConsistent env o.mono (writtenMods a) := fun m hm => hcons m (List.mem_append_left _ hm)
@@ -1042,7 +1109,7 @@ theorem mass_eq_compMass_static_of_tables (hI : ionTablesOk = true) (env : Env) 
     rw [f1, hs, g1]
     simp only [hp, bind_ok, pure_bind']
   rw [compMass_eq_core, hcore]
-  rw [f4] at g6
+  rw [f4] at g6 g6g
   by_cases hpn : (o.ion = ionP || o.ion = ionN) = true
   · have hsb := seqBase_pn o.mono (condenseWith (overrideArgs a o.charge none none) map) o.ion
       ((g2.trans f4) ▸ hres) ((g5.trans f3).trans had') adj hadj hpn
@@ -1057,7 +1124,7 @@ theorem mass_eq_compMass_static_of_tables (hI : ionTablesOk = true) (env : Env) 
     apply congrArg Except.ok
     unfold kProtons
     simp only [hpn, if_true]
-    rw [g6, f6, g2, f4, hz] at hm
+    rw [g6, g6g, f6, g2, f4, hz] at hm
     linarith
   · have hpn' : (o.ion = ionP || o.ion = ionN) = false := by simpa using hpn
     have hic : (lookup o.ion Gen.ionComp).isSome = true := by
@@ -1083,7 +1150,7 @@ theorem mass_eq_compMass_static_of_tables (hI : ionTablesOk = true) (env : Env) 
     apply congrArg Except.ok
     unfold kProtons
     simp only [hpn', Bool.false_eq_true, if_false]
-    rw [g6, f6, g2, f4, hz] at hm
+    rw [g6, g6g, f6, g2, f4, hz] at hm
     linarith
 
 end CompCalc
